@@ -273,8 +273,19 @@ def run_sharded(ctx, modname, campaign, nshards=None):
     if nshards == 1:
         parts = [shard_worker(args[0])]
     else:
+        budget = float(os.environ.get('VERIF_CAMPAIGN_TIMEOUT', 1500 if ctx.quick else 6 * 3600))
         with multiprocessing.get_context('fork').Pool(min(nshards, 16)) as pool:
-            parts = pool.map(shard_worker, args)
+            res = pool.map_async(shard_worker, args)
+            try:
+                parts = res.get(timeout=budget)
+            except multiprocessing.TimeoutError:
+                pool.terminate()
+                hung = Part()
+                hung.violation('hang', campaign, 'campaign-did-not-terminate',
+                               'campaign %s of %s did not finish within %d s: an operation of the implementation (or of the model) '
+                               'blocks or loops; no smaller input isolated' % (campaign, modname, budget), None,
+                               {'theorem_or_correspondence': 'termination of campaign %s/%s' % (modname, campaign)})
+                parts = [hung.result()]
     for p in parts:
         ctx.merge(p)
 
